@@ -82,14 +82,14 @@ var expectedProbes = map[string][]string{
 	"C04": {"probe.persist.over-earlier-shorter-attempt", "probe.persist.over-longer-file", "probe.dv.composite-only"},
 	"C05": {"probe.stored.bytecopy", "probe.stored.reencode", "probe.merge.nosurvivors", "probe.merge.chain>=2", "probe.merge.emptyinput", "fault.merge.cancelled"},
 	"C06": {"probe.postings.bytecopy", "probe.postings.reencode", "probe.1hit.remerged", "probe.merge.chain>=2"},
-	"C07": {"probe.post.1hit-list", "probe.post.replaceactual", "probe.post.list>=3hits", "probe.post.list>=3chunks", "probe.prealloc.from-closed-segment"},
+	"C07": {"probe.post.target-beyond-32-bits", "probe.post.1hit-list", "probe.post.replaceactual", "probe.post.list>=3hits", "probe.post.list>=3chunks", "probe.prealloc.from-closed-segment"},
 	"C08": {"probe.dict.merged>=2terms", "probe.dict.multi-after-single", "probe.dict.two-iterators-of-one-dictionary"},
 	"C10": {"probe.pool.builder-reused", "probe.pool.object-reused-across-tasks", "fault.build.rejected", "probe.build.size-compared", "probe.yield.zapx:new.afterGet", "probe.yield.zapx:new.beforePut"},
 	"C11": {"probe.pool.object-reused-across-tasks", "probe.yield.zapx:dict.beforeLock", "probe.yield.zapx:syncache.window", "probe.yield.visit.insideCallback", "probe.yield.merge.reportBytesWritten", "fault.poolflush"},
 	"C13": {"probe.merge.chain>=2", "probe.syn.empty-term", "probe.syn.empty-thesaurus"},
 	"C15": {"probe.merge.chain>=2", "probe.vec.boundary-batch"},
 	"C16": {"probe.vc.entry-shared-across-except-bitmaps", "probe.vc.eviction-then-reload", "fault.expiry.evictions", "probe.yield.zapx:veccache.window.create", "probe.yield.zapx:veccache.window.docvec"},
-	"C17": {"fault.rlimit", "fault.devfull", "fault.devnull", "fault.dir", "fault.noparent", "fault.writer.mode0", "fault.writer.mode1", "fault.strace.fsync", "fault.strace.close", "fault.strace.write", "probe.io.over-longer-file", "probe.io.over-shorter-file"},
+	"C17": {"fault.rlimit", "fault.rlimit-transient", "fault.devfull", "fault.devnull", "fault.dir", "fault.noparent", "fault.writer.mode0", "fault.writer.mode1", "fault.strace.fsync", "fault.strace.close", "fault.strace.write", "probe.io.over-longer-file", "probe.io.over-shorter-file"},
 	"C18": {"probe.cancel.midway-aborted", "fault.cancel.aborted", "fault.cancel.finished-normally", "fault.cancel.concurrent-aborted", "fault.cancel.concurrent-finished"},
 	"C19": {"fault.engine.IndexFactory", "fault.engine.AddWithIDs", "fault.engine.WriteIndexIntoBuffer", "fault.engine.ReadIndexFromBuffer", "fault.engine.ReconstructBatch", "fault.engine.Train", "fault.engine.SetDirectMap"},
 	"C20": {"probe.ref.merge-of-held-segment", "probe.ref.failed-merge-of-held-segment", "probe.open.damaged-rejected", "probe.yield.zapx:seg.addRef", "probe.yield.zapx:seg.decRef"},
